@@ -236,6 +236,7 @@ func (w *world) all() []*proc {
 // rest waits until no goroutine is running (two consecutive identical dumps).
 func (w *world) rest() (map[string]string, bool) {
 	deadline := time.Now().Add(restTimeout)
+	started := time.Now()
 	var prev map[string]string
 	pause := 20 * time.Microsecond
 	for {
@@ -260,12 +261,26 @@ func (w *world) rest() (map[string]string, bool) {
 		if time.Now().After(deadline) {
 			return cur, false
 		}
+		if !stable && time.Since(started) > spinBound {
+			// somebody has been running for a very long time without reaching a gate, parking or returning while
+			// everybody else is at rest: report it as an observation (a busy loop), the spec has no such state
+			for k, v := range cur {
+				if v == "running" {
+					cur[k] = "spinning"
+				}
+			}
+			return cur, true
+		}
 		time.Sleep(pause)
 		if !stable && pause < 2*time.Millisecond {
 			pause += pause / 2
 		}
 	}
 }
+
+// spinBound: a step of SummonSwamp between two gates costs microseconds of CPU; a goroutine that is still
+// running after this long (even on a heavily loaded machine) is looping.
+const spinBound = 90 * time.Second
 
 func same(a, b map[string]string) bool {
 	if len(a) != len(b) {
